@@ -1097,7 +1097,22 @@ func (m *MapPollard) Verify(delHashes []Hash, proof Proof, remember bool) error 
 // This function is different from Verify() in that it's not safe for concurrent access.
 func (m *MapPollard) verify(delHashes []Hash, proof Proof, remember bool) error {
 	if TreeRows(m.NumLeaves) != m.TotalRows {
-		proof.Targets = translatePositions(proof.Targets, m.TotalRows, TreeRows(m.NumLeaves))
+		// A position above row 0 of the TotalRows layout only exists in the forest if its
+		// row and offset fit in the TreeRows layout. Translating anything else would fold it
+		// onto an unrelated node.
+		treeRows := TreeRows(m.NumLeaves)
+		for _, target := range proof.Targets {
+			row := DetectRow(target, m.TotalRows)
+			if row == 0 {
+				continue
+			}
+			if row > treeRows ||
+				target-startPositionAtRow(row, m.TotalRows) >= 1<<(treeRows-row) {
+				return fmt.Errorf("invalid proof. Position %d doesn't exist "+
+					"in an accumulator with %d leaves", target, m.NumLeaves)
+			}
+		}
+		proof.Targets = translatePositions(proof.Targets, m.TotalRows, treeRows)
 	}
 
 	s := m.getStump()
